@@ -53,8 +53,12 @@ type signingDoneCheck struct {
 	receiveCtx           context.Context
 	cancelReceiveCtx     context.CancelFunc
 	expectedSignersCount int
-	doneSigners          map[group.MemberIndex]*signingDoneMessage
-	doneSignersMutex     sync.Mutex
+	// attemptMembers is the set of members participating in the given
+	// signing attempt. Only those members are expected and allowed to send
+	// the signing done message.
+	attemptMembers   map[group.MemberIndex]bool
+	doneSigners      map[group.MemberIndex]*signingDoneMessage
+	doneSignersMutex sync.Mutex
 }
 
 func newSigningDoneCheck(
@@ -95,7 +99,11 @@ func (sdc *signingDoneCheck) listen(
 		messagesChan <- message
 	})
 
-	sdc.expectedSignersCount = len(attemptMembersIndexes)
+	sdc.attemptMembers = make(map[group.MemberIndex]bool)
+	for _, memberIndex := range attemptMembersIndexes {
+		sdc.attemptMembers[memberIndex] = true
+	}
+	sdc.expectedSignersCount = len(sdc.attemptMembers)
 	sdc.doneSigners = make(map[group.MemberIndex]*signingDoneMessage)
 
 	go func() {
@@ -169,32 +177,55 @@ func (sdc *signingDoneCheck) waitUntilAllDone(ctx context.Context) (
 			return nil, 0, errWaitDoneTimedOut
 
 		case <-ticker.C:
-			if sdc.expectedSignersCount == len(sdc.doneSigners) {
-				var signature *tecdsa.Signature
-				var latestEndBlock uint64
-
-				for _, doneMessage := range sdc.doneSigners {
-					if signature == nil {
-						signature = doneMessage.signature
-					} else {
-						if !signature.Equals(doneMessage.signature) {
-							return nil, 0, fmt.Errorf(
-								"not matching signatures detected: [%v] and [%v]",
-								signature,
-								doneMessage.signature,
-							)
-						}
-					}
-
-					if doneMessage.endBlock > latestEndBlock {
-						latestEndBlock = doneMessage.endBlock
-					}
-				}
-
-				return &signing.Result{Signature: signature}, latestEndBlock, nil
+			allDone, result, latestEndBlock, err := sdc.checkAllDone()
+			if allDone {
+				return result, latestEndBlock, err
 			}
 		}
 	}
+}
+
+// checkAllDone checks whether all members participating in the signing attempt
+// sent their done messages. If so, it returns true along with the signature
+// and the block at which the slowest signer completed the signature
+// computation process, or an error if at least one signature is different from
+// others. The done messages are written by the listening goroutine so they are
+// read with the mutex held.
+func (sdc *signingDoneCheck) checkAllDone() (
+	bool,
+	*signing.Result,
+	uint64,
+	error,
+) {
+	sdc.doneSignersMutex.Lock()
+	defer sdc.doneSignersMutex.Unlock()
+
+	if sdc.expectedSignersCount != len(sdc.doneSigners) {
+		return false, nil, 0, nil
+	}
+
+	var signature *tecdsa.Signature
+	var latestEndBlock uint64
+
+	for _, doneMessage := range sdc.doneSigners {
+		if signature == nil {
+			signature = doneMessage.signature
+		} else {
+			if !signature.Equals(doneMessage.signature) {
+				return true, nil, 0, fmt.Errorf(
+					"not matching signatures detected: [%v] and [%v]",
+					signature,
+					doneMessage.signature,
+				)
+			}
+		}
+
+		if doneMessage.endBlock > latestEndBlock {
+			latestEndBlock = doneMessage.endBlock
+		}
+	}
+
+	return true, &signing.Result{Signature: signature}, latestEndBlock, nil
 }
 
 // isValidDoneMessage validates the given signingDoneMessage in the context
@@ -206,9 +237,16 @@ func (sdc *signingDoneCheck) isValidDoneMessage(
 	attemptNumber uint64,
 	attemptTimeoutBlock uint64,
 ) bool {
+	sdc.doneSignersMutex.Lock()
 	_, signerDone := sdc.doneSigners[doneMessage.senderID]
+	sdc.doneSignersMutex.Unlock()
 	if signerDone {
 		// only one done message allowed
+		return false
+	}
+
+	if !sdc.attemptMembers[doneMessage.senderID] {
+		// only members participating in the attempt can confirm it is done
 		return false
 	}
 
